@@ -1563,10 +1563,15 @@ def execute(plan: dict, root: str) -> dict:
         phases = []
     herr = None
     alt = set(plan["knobs"].get("alt_phases", []))
+    opt = set(plan["knobs"].get("opt_phases", []))
     if phases:
         ex.init_files()
     for pi in range(len(phases)):
-        if pi in alt:
+        if pi in opt:
+            # a restart under `python -O`: assert statements of the library do not execute
+            st, val = altserver.call("aggsim_phase", (plan, root, pi), timeout=150, which="opt")
+            ex.note("phase_in_optimised_interpreter")
+        elif pi in alt:
             st, val = altserver.call("aggsim_phase", (plan, root, pi), timeout=150)
             ex.note("phase_in_other_interpreter")
         else:
